@@ -290,9 +290,9 @@ def make_job(sde_type, noise, B, d, m, grad_enabled):
         for fn_ in (S.f, S.g):
             for key in fn_.points:
                 times.add(key[1])
-        ok = times == {repr(-tau)}
+        ok = times == {(-tau).key()}
         rep.add(f'{tag}/forward-functions-evaluated-at(-t)', 'post', 'discharged' if ok else 'refuted', 'pyvc-exec',
-                model=None if ok else {'times': sorted(times)})
+                model=None if ok else {'times': [str(x)[:80] for x in times]})
     return Job(f'{sde_type}-{noise}-B{B}d{d}m{m}-{"grad" if grad_enabled else "nograd"}', fn)
 
 
